@@ -91,4 +91,122 @@ Qed.
 Lemma kept_init_from tbl j : tbl j = NSuccess \/ tbl j = NSkipped -> kept (init_from tbl) j.
 Proof. intros [H|H]; unfold kept, init_from; cbn [nd]; rewrite H; cbn; auto. Qed.
 
+
+(* ---------------------------------------------------------------------------------------------- *)
+(* (a) "in dependency order": C01 for executions from ANY start state satisfying the invariant       *)
+(* ---------------------------------------------------------------------------------------------- *)
+Theorem start_after_deps_from s0 ls1 i ls2 s1 s2 s3 : Inv c s0 ->
+  run c s0 ls1 = Some s1 -> step c s1 (WExecStart i) = Some s2 -> run c s2 ls2 = Some s3 ->
+  forall d, In d (deps (steps c i)) ->
+    okterm c s1 d /\ active (ph (nd s1 d)) = false /\ ph (nd s1 d) <> PExec /\ ~ In (WExecStart d) ls2.
+Proof.
+  intros HI0 H1 H2 H3 d Hd.
+  pose proof (run_inv c Hnorep s0 ls1 s1 HI0 H1) as HI.
+  assert (Hok : okterm c s1 d).
+  { eapply (iC _ _ HI i); eauto. left. cbn [step] in H2. destruct (ph (nd s1 i)); try discriminate. }
+  pose proof (iA _ _ HI d) as Hc. unfold coherent in Hc.
+  split; [exact Hok|]. split.
+  { destruct Hok as [H|[[H _]|[H _]]]; destruct (ph (nd s1 d)); simpl; auto; intuition congruence. }
+  split.
+  { destruct Hok as [H|[[H _]|[H _]]]; destruct (ph (nd s1 d)); try discriminate; intuition congruence. }
+  eapply (okterm_never_again c Hnorep s2 ls2 s3 d).
+  - eapply inv_step; eauto.
+  - eapply step_okterm_stable; eauto.
+  - exact H3.
+Qed.
+
+(* ... for a retry: from the recorded table; a kept dependency shows its recorded status at that instant *)
+(* a kept node is literally untouched *)
+Lemma kept_unchanged_step s l s' j : Inv c s -> kept s j -> step c s l = Some s' -> nd s' j = nd s j.
+Proof.
+  intros HI [Ha Hk] Hs. pose proof (iB _ _ HI) as HB.
+  destruct l; cbn [step] in Hs; inv_guard Hs; injection Hs as <-; split_guard;
+    unfold set_nd, set_pc, set_err, set_hst, upd; cbn [nd]; try reflexivity.
+  all: try (match goal with |- context [?x =? ?k] => destruct (Nat.eqb_spec x k) as [->|Hne]; [|reflexivity] end).
+  all: try (exfalso; destruct Hk as [[A B]|[A B]]; congruence).
+  all: try (exfalso; match goal with H : is_committed (pc _) _ = true |- _ =>
+              apply is_committed_eq in H; destruct (HB _ H) as [_ X]; destruct Hk as [[A B]|[A B]]; congruence end).
+  (* WAfter *)
+  destruct (after_shape c s i ok early) as (Ho & _).
+  destruct (Nat.eq_dec j i) as [->|Hne].
+  - exfalso. destruct Hk as [[A B]|[A B]]; congruence.
+  - apply (Ho j Hne).
+Qed.
+
+Lemma kept_unchanged_run ls : forall s s' j, Inv c s -> kept s j -> run c s ls = Some s' -> nd s' j = nd s j.
+Proof.
+  induction ls as [|l ls IH]; simpl; intros s s' j HI Hk Hr; [injection Hr as <-; reflexivity|].
+  destruct (step c s l) eqn:Hs; [|discriminate].
+  rewrite (IH s0 s' j (inv_step c Hnorep _ _ _ HI Hs) (kept_step _ _ _ _ HI Hk Hs) Hr).
+  eapply kept_unchanged_step; eauto.
+Qed.
+
+Lemma kept_status tbl ls s j : tbl_consistent tbl -> run c (init_from tbl) ls = Some s ->
+  tbl j = NSuccess \/ tbl j = NSkipped -> st (nd s j) = tbl j /\ att (nd s j) = 0.
+Proof.
+  intros Hc Hr Hj.
+  rewrite (kept_unchanged_run ls _ _ j (inv_init_from tbl Hc) (kept_init_from tbl j Hj) Hr).
+  unfold init_from. cbn [nd]. destruct Hj as [H|H]; rewrite H; cbn; auto.
+Qed.
+
+(* (a) for a retry: from the recorded table; a kept dependency shows its recorded status at that instant *)
+Theorem retry_start_after_deps tbl ls1 i ls2 s1 s2 s3 : tbl_consistent tbl ->
+  run c (init_from tbl) ls1 = Some s1 -> step c s1 (WExecStart i) = Some s2 -> run c s2 ls2 = Some s3 ->
+  forall d, In d (deps (steps c i)) ->
+    okterm c s1 d /\ active (ph (nd s1 d)) = false /\ ph (nd s1 d) <> PExec /\ ~ In (WExecStart d) ls2 /\
+    ((tbl d = NSuccess \/ tbl d = NSkipped) -> st (nd s1 d) = tbl d /\ att (nd s1 d) = 0).
+Proof.
+  intros Hc H1 H2 H3 d Hd.
+  destruct (start_after_deps_from (init_from tbl) ls1 i ls2 s1 s2 s3 (inv_init_from tbl Hc) H1 H2 H3 d Hd) as (A & B & C0 & D).
+  repeat split; auto; apply (kept_status tbl ls1 s1 d Hc H1 H).
+Qed.
+
+(* ---------------------------------------------------------------------------------------------- *)
+(* (b) "every member of the unfinished part is subject to scheduling": C02 for runs from a recorded table *)
+(* ---------------------------------------------------------------------------------------------- *)
+Lemma qnode_run ls : forall s s' j, Inv c s -> run c s ls = Some s' -> quiet s' -> qnode c s j -> qnode c s' j.
+Proof.
+  induction ls as [|l ls IH]; simpl; intros s s' j HI Hr Hq HQ; [injection Hr as <-; exact HQ|].
+  destruct (step c s l) as [s1|] eqn:Hs; [|discriminate].
+  assert (Hq1 : quiet s1).
+  { clear - Hr Hq Hnorep. revert s1 Hr. induction ls as [|l2 ls IH2]; simpl; intros s1 Hr; [injection Hr as <-; exact Hq|].
+    destruct (step c s1 l2) as [s2|] eqn:Hs2; [|discriminate]. eapply quiet_back; eauto. }
+  eapply IH; [eapply inv_step; eauto|exact Hr|exact Hq|]. eapply qnode_step; eauto.
+Qed.
+
+Lemma xinv_run ls : forall s s', Inv c s -> XInv c s -> run c s ls = Some s' -> XInv c s'.
+Proof.
+  induction ls as [|l ls IH]; simpl; intros s s' HI HX Hr; [injection Hr as <-; exact HX|].
+  destruct (step c s l) eqn:Hs; [|discriminate].
+  eapply IH; [eapply inv_step; eauto|eapply xinv_step; eauto|exact Hr].
+Qed.
+
+(* C02 from any start state: a node whose quiet-run facts hold at the start (e.g. a not-started node) ends, at Done
+   without stop request or timeout, in the state C02 dictates - the blockers / permitters are read on the final table,
+   whatever nodes were already finished or skipped at the start *)
+Theorem final_states_from s0 ls s i : Inv c s0 -> XInv c s0 -> qnode c s0 i ->
+  run c s0 ls = Some s -> quiet s -> pc s = LDone -> i < n -> final_clauses c s i.
+Proof.
+  intros HI HX HQ Hr Hq Hpc Hi.
+  apply final_states_node; auto.
+  - eapply run_inv; eauto.
+  - eapply xinv_run; eauto.
+  - eapply qnode_run; eauto.
+Qed.
+
+(* for a retry: every reset (not kept) node is subject to scheduling and ends as C02 dictates; kept nodes count with
+   their recorded status (kept_status) *)
+Theorem retry_final_states tbl ls s i : tbl_consistent tbl ->
+  run c (init_from tbl) ls = Some s -> quiet s -> pc s = LDone -> i < n ->
+  tbl i <> NSuccess -> tbl i <> NSkipped -> final_clauses c s i.
+Proof.
+  intros Hc Hr Hq Hpc Hi H1 H2.
+  apply (final_states_from (init_from tbl) ls s i); auto.
+  - apply inv_init_from; exact Hc.
+  - intros _. unfold init_from. cbn [pc]. split; intros X; discriminate X.
+  - unfold qnode, qnode_gen, init_from. cbn [nd].
+    destruct (tbl i); try congruence; cbn [init_node ph st att outs rc];
+      (split; [auto|]; split; [intros [X|X]; [congruence|lia]|]; split; [apply allf_nil|reflexivity]).
+Qed.
+
 End Retry.
